@@ -34,12 +34,19 @@ RULE = ('binary and length matrices, directed and undirected, n=1..8: exhaustive
         'in binary64: {1..4}*2^-40, near-ties {2^20-1,2^20,2^20+1,2^21-2,2^21+1,2^21+3} as integers and scaled by 2^-20, inv transform '
         'on weights 2^28..2^30; charpath called 3-4 times on one array object with different flag combinations (include_infinite=False first, defaults last)'
         '; inv transform on dyadic weights (exact) and on {1,2,3} (tolerance); log transform on weights '
-        '2^-k in (0,1] (tolerance). non-trivial = at least one finite off-diagonal distance; distinct by hash of (kind, matrix)')
+        '2^-k in (0,1] (tolerance); charpath on matrices with nan / inf entries and a nonzero diagonal n<=6, all four flag combinations AND the default arguments '
+        '(omitted), eccentricity / radius / diameter judged; breadth() called directly (distance and branch outputs); n in {12,20,40} (thorough: 6 sizes) for '
+        'distance_wei / distance_wei_floyd / efficiency_* with the numpy exact-h oracle only; the five distance routines on int64/int8/uint8/bool copies of small '
+        '0/1 digraphs; one dense digraph of 166-176 nodes with unreachable pairs (thorough: also n=260 p=.15, n=200 p=.5) for reachdist / distance_bin judged '
+        'by BFS. non-trivial = at least one finite off-diagonal distance; distinct by hash of (kind, matrix)')
 ASSUMES = ['the theorems are over exact rationals: on lengths that are NOT exact in binary64 (1/3, k*ln 2) rounding can separate exactly tied alternatives — one known finding (edge-count-tie) lives exactly there',
            'lengths are small integers or dyadic rationals, so every sum/comparison the model treats as exact is exact in binary64; '
            'results of 1/x and -log x are compared with relative tolerance 1e-9',
            'zero diagonal (no self-connections) in the main stream; self-loops are probed in a separate stream',
-           'weights strictly positive; log transform on weights in (0,1]']
+           'weights strictly positive; log transform on weights in (0,1]',
+           'charpath: entries nan, +inf or finite (no -inf, no -0.0); n >= 1 (the masked maximum of the eccentricity raises on a 0x0 matrix); the eccentricity of a row '
+           'with nothing selected (isolated node with include_infinite=False) is the fill value 1e20 of numpy.ma and is not judged',
+           'reachdist: only ensure_binary=True is modelled; walk counts are exact integers in the model, clipped to 0/1 each round as the code does since repo commit 2cf9619']
 TRUSTED = ['-log is an abstract function (Section variable) in the theorems; in the extracted run its values are supplied by the harness as a table of the floats NumPy computed']
 
 INF = float('inf')
